@@ -65,9 +65,12 @@ static const Sym gSyms[] = {
 	{"feff", 0xFEFF},      // BOM character inside the text
 	{"nul", 0x0000},
 	{"a", U'a'},           // filler (only in the short texts it is a symbol of its own)
+	{"lf", 0x000A},        // ASCII control characters and DEL: "begins with an ASCII character other than NUL" includes them, and
+	{"c1f", 0x001F},       // the zero-byte pattern analysis of DetectEncoding looks at the bit patterns of the first units
+	{"del", 0x007F},
 };
 constexpr int NS = 7;      // symbols of X
-constexpr int NSA = 8;     // symbols of the short texts
+constexpr int NSA = 11;    // symbols of the short texts
 static const int gChunks[] = {32, 64, 256};
 static const char* gTargets[] = {"char", "char16", "char32"};
 
@@ -82,7 +85,7 @@ static std::vector<std::vector<int>> seqs(int nsym, int maxLen) {
 	return r;
 }
 static const std::vector<std::vector<int>> gX = seqs(NS, 3);        // 1+7+49+343 = 400; first 57 have length <= 2
-static const std::vector<std::vector<int>> gShort = seqs(NSA, 3);   // 585
+static const std::vector<std::vector<int>> gShort = seqs(NSA, 3);   // 1+11+121+1331 = 1464
 constexpr int NX2 = 57;
 // The sanitizer build enumerates X of length <= 2; the plain -O2 build (variant "len3", thorough tier only) enumerates
 // exactly the X of length 3, so that together they cover length <= 3 without doing anything twice.
